@@ -1,9 +1,9 @@
-SPECIFICATION Spec
+SPECIFICATION MSpec
 CONSTANTS
   Nodes = {"A", "B", "C"}
   R = "R"
   MaxTs = 3
-  MaxOps = 3
+  MaxOps = 1
   Shape = "diamond"
   Mode = "graph"
   NaNVal = 999
@@ -11,5 +11,4 @@ CONSTANTS
   AsCodedEdgeDelta = FALSE
   AsCodedNewEdge = FALSE
   ConcatKey <- ConcatKeyImpl
-INVARIANTS NewestWins OneRowPerIdentity HashOK AcyclicInv RootNeverDeleted RebroadcastExact RefusedLeavesNoTrace ReadsAgree MovesAtomic MirrorsAtomic
-VIEW View
+INVARIANTS MoveDump
